@@ -129,23 +129,53 @@ class Ctx:
         return v
 
     def realise_int(self, t, limit=64):
-        """Concrete value of an Int term on this path; forks once per feasible value."""
+        """Concrete value of an Int term on this path; one path per feasible value.  The chosen value is
+        recorded in the decision script itself, so a replay does not depend on which model the solver
+        happens to return."""
         t = z3.simplify(t)
         if z3.is_int_value(t):
             return t.as_long()
-        for _ in range(limit):
-            if self.check() != 'sat':
-                self.flag('realise: path condition not sat')
-                return 0
-            m = self.solver.model()
-            v = m.eval(t, model_completion=True)
-            if not z3.is_int_value(v):
-                self.flag('realise: non-integer model value')
-                return 0
-            if self.decide(t == v):
-                return v.as_long()
-        self.flag('unbounded realisation of %s' % t)
-        return 0
+        n = len(self.taken)
+        excluded = []
+        if n < len(self.script):
+            entry = self.script[n]
+            if isinstance(entry, tuple) and entry[0] == 'val':
+                v = entry[1]
+                self.taken.append(entry)
+                c = t == v
+                self.solver.add(c)
+                self.pc.append(c)
+                return v
+            if isinstance(entry, tuple) and entry[0] == 'excl':
+                excluded = list(entry[1])
+            else:
+                self.flag('decision script out of step at a realisation')
+        cons = [t != e for e in excluded]
+        if self.check(*cons) != 'sat':
+            self.flag('realise: no value left for %s' % t)
+            self.taken.append(('val', 0))
+            return 0
+        v = self.solver.model().eval(t, model_completion=True)
+        if not z3.is_int_value(v):
+            self.flag('realise: non-integer model value')
+            self.taken.append(('val', 0))
+            return 0
+        v = v.as_long()
+        more = self.check(t != v, *cons)
+        if more == 'unknown':
+            self.weak = True
+            self.flag('solver unknown at a realisation')
+        if more != 'unsat':
+            if len(excluded) + 1 >= limit:
+                self.flag('unbounded realisation of %s' % t)
+            else:
+                self.forks += 1
+                self.alts.append(list(self.taken) + [('excl', excluded + [v])])
+        self.taken.append(('val', v))
+        c = t == v
+        self.solver.add(c)
+        self.pc.append(c)
+        return v
 
     def model(self):
         if self.check() == 'sat':
